@@ -799,6 +799,20 @@ class C09(Prop):
                          ["reg", "tag-new"], ["reg", "json-default"], ["r", ta, 0], ["r", tb, 0], ["r", td, 0],
                          ["mr", probe, 1], ["new", ta], ["r", ta, 1]]}
 
+        # the loader's contents change between two renders of the same Template object (a partial must be asked
+        # for again on every render: nothing may be kept on the parsed template)
+        pages = {"pg_render": "R[{% render 'part' %}]", "pg_include": "I[{% include 'part' %}]",
+                 "pg_loop": "{% for i in (1..2) %}{% render 'part' %}{% endfor %}",
+                 "pg_child": "{% extends 'part_base' %}{% block b %}C{{ block.super }}{% endblock %}",
+                 "part": "P0", "part_base": "<{% block b %}B0{% endblock %}>"}
+        for page, edited in (("pg_render", "part"), ("pg_include", "part"), ("pg_loop", "part"),
+                             ("pg_child", "part_base")):
+            tref = ["A", "g", page]
+            for hist in ([["r", tref, 0], ["ed", "A", edited, 1], ["r", tref, 0], ["ed", "A", edited, 2], ["ra", tref, 0]],
+                         [["ra", tref, 0], ["ed", "A", edited, 1], ["r", tref, 0]]):
+                yield {"t0": 1_000_000_000, "loaders": {"A": "dict", "B": "dict"}, "templates": {**templates, **pages},
+                       "sources": list(HAND), "data": data, "h": hist}
+
         # one caching loader object shared by two environments, only one of them configured
         for probe in (11, 12):
             ga, gb = ["A", "g", f"h{probe}"], ["B", "g", f"h{probe}"]
